@@ -22,8 +22,8 @@
 
   The three Python recursions (`_set_owner`, `rebuild_caches(node)`, `remove_from_caches`) walk the
   subtree in pre-order and never change a child list, so each is modelled as: compute the pre-order
-  list of the subtree (`subtree`, with a depth budget `FUEL`), then run the per-node statement over
-  that list.  (remove_from_caches drops the style entry of a node after its children instead of
+  list of the element nodes of the subtree (`elems`, with a depth budget `FUEL`), then run the
+  per-node statement over that list.  (remove_from_caches drops the style entry of a node after its children instead of
   before; the entries are removed by identity, so the order is immaterial.)  A subtree deeper than
   the budget makes the model raise `RecursionError` before the traversal's own assignments — Python
   raises it too (later, half-way); the theorems of C09 speak about calls that do not raise it.
@@ -96,28 +96,44 @@ def sdDel : List (Nat × Id) → Nat → List (Nat × Id)
   | [], _ => []
   | (k, w) :: r, n => if k = n then r else (k, w) :: sdDel r n
 
-/-! ### pre-order traversal with a depth budget -/
+/-! ### the recursions over a subtree, with a depth budget -/
 
 mutual
-/-- the nodes of the subtree of `n` in document order; `none` when deeper than the budget -/
-def subtree (h : Heap) : Nat → Id → Option (List Id)
+/-- the ELEMENT nodes below and including `n`, in document order, as all three recursions
+    (`_set_owner`, `rebuild_caches`, `remove_from_caches`) visit them: a non-element node is not
+    entered; `none` when the subtree is deeper than the budget (RecursionError) -/
+def elems (h : Heap) : Nat → Id → Option (List Id)
   | 0, _ => none
-  | f + 1, n => (subtreeL h f (h n).kids).map (fun l => n :: l)
-def subtreeL (h : Heap) : Nat → List Id → Option (List Id)
+  | f + 1, n =>
+    if (h n).kind = .elem then (elemsL h f (h n).kids).map (fun l => n :: l) else some []
+def elemsL (h : Heap) : Nat → List Id → Option (List Id)
   | _, [] => some []
   | f, k :: r =>
-    match subtree h f k, subtreeL h f r with
+    match elems h f k, elemsL h f r with
     | some a, some b => some (a ++ b)
     | _, _ => none
 end
 
-/-- the ELEMENT nodes of the subtree (text nodes are skipped by all three recursions) -/
-def elemsUnder (h : Heap) (n : Id) : Option (List Id) :=
-  (subtree h FUEL n).map (fun l => l.filter (fun x => (h x).kind = .elem))
+def elemsUnder (h : Heap) (n : Id) : Option (List Id) := elems h FUEL n
 
-/-- `Element.getElementsByType`: the elements of the subtree with the given qname, document order -/
-def elByType (h : Heap) (n : Id) (q : Nat) : Option (List Id) :=
-  (elemsUnder h n).map (fun l => l.filter (fun x => (h x).qn = q))
+mutual
+/-- `Element._getElementsByObj(obj, accumulator)`: `q` is `obj.qname` -/
+def getByObj (h : Heap) (q : Nat) : Nat → Id → List Id → Option (List Id)
+  | 0, _, _ => none
+  | f + 1, n, acc =>
+    getByObjL h q f (h n).kids (if (h n).qn = q then acc ++ [n] else acc)   -- if self.qname == obj.qname: accumulator.append(self)
+def getByObjL (h : Heap) (q : Nat) : Nat → List Id → List Id → Option (List Id)
+  | _, [], acc => some acc
+  | f, k :: r, acc =>                                                       -- for e in self.childNodes:
+    if (h k).kind = .elem then                                              --   if e.nodeType == ELEMENT_NODE:
+      match getByObj h q f k acc with                                       --     accumulator = e._getElementsByObj(obj, accumulator)
+      | some acc' => getByObjL h q f r acc'
+      | none => none
+    else getByObjL h q f r acc
+end
+
+/-- `Element.getElementsByType(factory)` -/
+def elByType (h : Heap) (n : Id) (q : Nat) : Option (List Id) := getByObj h q FUEL n []
 
 /-! ### the monad over document states -/
 
@@ -198,13 +214,15 @@ def setOwnerRec (n : Id) (v : Bool) : DM Unit := do
 
 /-! ### build_caches / __register_stylename -/
 
-/-- `__register_stylename(elt)` -/
+/-- `__register_stylename(elt)`.  (`elt.parentNode.qname` of a parentless node would be an
+    AttributeError in Python; build_caches is only ever called on nodes below an attached parent, or
+    on the top node, which is not a style:style — the model simply does nothing there.) -/
 def registerStyle (x : Id) : DM Unit := do
   match (← rdD fun s => lookupAttr KEY_STYLE_NAME (s.heap x).attrs) with   -- name = elt.getAttrNS(STYLENS, 'name')
   | none => pure ()                                                         -- if name is None: return
   | some name =>
     match (← rdD fun s => (s.heap x).parent) with
-    | none => raiseD .AttributeError                                        -- elt.parentNode.qname on None (unreachable)
+    | none => pure ()
     | some pp =>
       let pq ← rdD fun s => (s.heap pp).qn
       if pq = QN_STYLES ∨ pq = QN_AUTOSTYLES then                           -- parent is office:styles / automatic-styles
